@@ -249,6 +249,7 @@ func (c *MJWrapperComponent) renderFullWidthToWriter(w io.StringWriter) error {
 
 	if cssClass != "" {
 		outerTable.AddAttribute("class", cssClass)
+		c.ApplyInlineStyles(outerTable, cssClass)
 	}
 
 	// Apply background styles to outer table and add width:100%
